@@ -439,4 +439,65 @@ theorem clean_entries : ∀ (es : List (List NameItem × List SepItem × STree))
     exact ⟨clean_tree v h.2.2.2.1, clean_entries r h.2.2.2.2⟩
 end
 
+/-! ### an indirect object `n g obj … endobj` -/
+
+/-- the spelling of an indirect object around a spelled tree -/
+structure ObjSpelling where
+  ds : Bytes
+  g1 : List SepItem
+  gs : Bytes
+  g2 : List SepItem
+  g3 : List SepItem
+  body : STree
+  g4 : List SepItem
+
+def ObjSpelling.bytes (o : ObjSpelling) : Bytes :=
+  (o.ds ++ renderSep o.g1) ++ ((o.gs ++ renderSep o.g2) ++ ((kwObj ++ renderSep o.g3) ++
+    (bytesOf o.body ++ (kwEndobj ++ renderSep o.g4))))
+
+def ObjSpelling.wf (o : ObjSpelling) : Prop :=
+  digitsOK o.ds ∧ sepOK o.g1 ∧ o.g1 ≠ [] ∧ digitsOK o.gs ∧ sepOK o.g2 ∧ o.g2 ≠ [] ∧ sepOK o.g3 ∧
+    (o.g3 = [] → ∀ rest, isDW ((bytesOf o.body ++ rest).headD 0) = true) ∧
+    Roundtrip.wf o.body ∧ endsReg o.body = false ∧ sepOK o.g4
+
+theorem alpha_obj : isAlpha 111 = true ∧ ∀ x ∈ ([98, 106] : Bytes), isAlpha x = true := by
+  refine ⟨by decide, ?_⟩; intro x hx; simp at hx; rcases hx with rfl | rfl <;> decide
+theorem alpha_endobj : isAlpha 101 = true ∧ ∀ x ∈ ([110, 100, 111, 98, 106] : Bytes), isAlpha x = true := by
+  refine ⟨by decide, ?_⟩; intro x hx; simp at hx; rcases hx with rfl | rfl | rfl | rfl | rfl <;> decide
+
+theorem lex_obj (o : ObjSpelling) (h : o.wf) :
+    LexUnit o.bytes
+      ([Token.int (intValue [] o.ds), Token.int (intValue [] o.gs), Token.kwd kwObj] ++
+        (ser (valueOf o.body) ++ [Token.kwd kwEndobj])) o.g4.isEmpty := by
+  obtain ⟨⟨hne1, hd1, hl1⟩, hg1, hg1n, ⟨hne2, hd2, hl2⟩, hg2, hg2n, hg3, hg3d, hwf, hreg, hg4⟩ := h
+  have u1 : LexUnit (o.ds ++ renderSep o.g1) [Token.int (intValue [] o.ds)] false := by
+    have := tok_sep (unit_int [] o.ds (Or.inl rfl) hne1 hd1 hl1) o.g1 hg1
+    rw [isEmpty_false hg1n] at this
+    simpa using this
+  have u2 : LexUnit (o.gs ++ renderSep o.g2) [Token.int (intValue [] o.gs)] false := by
+    have := tok_sep (unit_int [] o.gs (Or.inl rfl) hne2 hd2 hl2) o.g2 hg2
+    rw [isEmpty_false hg2n] at this
+    simpa using this
+  have u3 : LexUnit (kwObj ++ renderSep o.g3) [Token.kwd kwObj] o.g3.isEmpty := by
+    have := unit_keyword 111 [98, 106] alpha_obj.1 alpha_obj.2
+    have u : LexUnit kwObj [Token.kwd kwObj] true := by simpa [kwTrue, kwFalse, kwObj] using this
+    exact tok_sep u o.g3 hg3
+  have u4 : LexUnit (bytesOf o.body) (ser (valueOf o.body)) false := by
+    have := lex_tree o.body hwf
+    rwa [hreg] at this
+  have u5 : LexUnit (kwEndobj ++ renderSep o.g4) [Token.kwd kwEndobj] o.g4.isEmpty := by
+    have := unit_keyword 101 [110, 100, 111, 98, 106] alpha_endobj.1 alpha_endobj.2
+    have u : LexUnit kwEndobj [Token.kwd kwEndobj] true := by simpa [kwTrue, kwFalse, kwEndobj] using this
+    exact tok_sep u o.g4 hg4
+  have u45 := LexUnit.append_free u4 u5
+  have u345 := LexUnit.append u3 u45 (fun hreg3 d _ => by
+    have hge : o.g3 = [] := by
+      cases hg : o.g3 with
+      | nil => rfl
+      | cons _ _ => rw [hg] at hreg3; simp at hreg3
+    have := hg3d hge ((kwEndobj ++ renderSep o.g4) ++ [d])
+    simpa [List.append_assoc] using this)
+  have := LexUnit.append_free u1 (LexUnit.append_free u2 u345)
+  simpa [ObjSpelling.bytes, List.append_assoc] using this
+
 end PdfVerif.Roundtrip
